@@ -148,7 +148,9 @@ class Sim:
 
     def point(self, pid, what):
         """a scheduling point of process pid"""
-        self.trace.append((pid, what))
+        if self.procs[pid].get("dead"):
+            raise Crash()        # a dead process executes nothing, not even
+        self.trace.append((pid, what))          # its cleanup handlers
         if self.on_point is not None:
             self.on_point(pid, what)
         if len(self.trace) > 4000:
@@ -158,6 +160,7 @@ class Sim:
                     not self.procs[pid].get("nocrash"):
                 if E.choose(2, f"crash {pid} before {what}?"):
                     self.crashed = (pid, what)
+                    self.procs[pid]["dead"] = True
                     raise Crash()
             try:
                 self._pick(pid)
